@@ -66,6 +66,38 @@ RESOLVE_DOCS = [
 ]
 
 
+def constructed_value(rng):
+    """A value made with the constructors / plain Python data, not by the parser."""
+    from nix_manipulator.expressions.binding import Binding
+    from nix_manipulator.expressions.function.call import FunctionCall
+    from nix_manipulator.expressions.identifier import Identifier
+    from nix_manipulator.expressions.list import NixList
+    from nix_manipulator.expressions.primitive import Primitive
+    from nix_manipulator.expressions.set import AttributeSet
+    from nix_manipulator.expressions.with_statement import WithStatement
+
+    def lst():
+        return NixList(value=[Identifier(name=n) for n in rng.sample(["a", "b", "c", "d"], rng.choice([0, 1, 2, 3]))])
+    k = rng.randrange(9)
+    if k == 0:
+        return [1, 2, 3][: rng.choice([0, 1, 3])]
+    if k == 1:
+        return {"x": 1, "y": [1, [2]]}
+    if k == 2:
+        return lst()
+    if k == 3:
+        return WithStatement(environment=Identifier(name="pkgs"), body=lst())
+    if k == 4:
+        return FunctionCall(name="f", argument=lst())
+    if k == 5:
+        return NixList(value=[lst(), lst()])
+    if k == 6:
+        return AttributeSet(values=[Binding(name="k", value=lst())])
+    if k == 7:
+        return NixList(value=[Primitive(value=1), AttributeSet(values=[])])
+    return Primitive(value="s")
+
+
 def inject_rebuild_fault(rng, doc):
     """Pick a random expression node below the document (a binding value, a list element, an
     operand ...) and return (get, set, original, poison): poison.rebuild raises."""
@@ -208,6 +240,15 @@ def run_shard(spec):
                                  else remove_value(d, ops[0].npath))
                             except Exception:  # noqa: BLE001
                                 pass
+                # nodes built through the API ("choose the layout automatically") placed in the
+                # document: rendering must not write its decisions back into them
+                if rng.random() < 0.3 and not d.contains_error:
+                    try:
+                        for _ in range(rng.choice([1, 2])):
+                            d["built" + str(rng.randrange(9))] = constructed_value(rng)
+                        obs["purity"]["constructed_values"] = obs["purity"].get("constructed_values", 0) + 1
+                    except Exception:  # noqa: BLE001 - documents without a target set
+                        pass
                 outs = [d.rebuild() for _ in range(3)]
             except Exception:  # noqa: BLE001
                 continue
